@@ -406,6 +406,55 @@ example : (Obs.run (Obs.init : OState Nat) [.start 0 false [(7, 1)], .prep 0 7 (
 example : (Obs.run (Obs.init : OState Nat) [.start 0 false [(7, 1)], .start 1 false [(8, 1)], .prep 0 7 (some (PConn.token [1] [4], 1)),
     .prep 1 8 (some (PConn.token [2] [4], 1)), .exec 0 [PConn.token [2] [4]] .ok]).isNone = true := by decide
 
+/-! ### several hosts: one Query value executed on more than one host
+
+The cache key is (host, keyspace, statement): with `κ = η × σ` (host × statement-in-keyspace) the machine above IS the
+multi-host machine - every call runs on the host its entries name, `prep f (h, st) r` is a PREPARE that HOST h received.
+One `Query` value whose executions go to different hosts (the pages of a paged iteration, the attempts of a
+RetryNextHost policy, speculative attempts) is several calls of this machine, one per execution, each on its own host:
+nothing the driver keeps on the Query value itself may stand in for the host-keyed cache. -/
+
+/-- **Ids belong to the HOST that receives them.** Whenever, in any schedule over hosts η, host `hst` receives an
+    EXECUTE / BATCH of a call: every id in it was returned, for exactly that statement, by a PREPARE that THIS host
+    received (and that had not left the cache when the call started / sent its previous frame) - never by a PREPARE
+    another host answered, whatever else executes the same statement text elsewhere at the same time. -/
+theorem C14_id_belongs_host {η σ : Type} [DecidableEq η] [DecidableEq σ]
+    (as : List (PConn.Action (η × σ))) (s : PConn.State (η × σ)) (pre post : List (Ev (η × σ))) (c : Nat) (ids : List Id) (a : XAns)
+    (h : PConn.run (PConn.initB b) as = some (s, pre ++ Ev.exec c ids a :: post)) :
+    ∃ bt es, Ev.start c bt es ∈ pre ∧ ids.length = es.length ∧
+      ∀ (j : Nat) (hst : η) (st : σ) (n : Nat) (id : Id), es[j]? = some ((hst, st), n) → ids[j]? = some id →
+        ∃ f, Ev.prep f (hst, st) (some (id, n)) ∈ pre ∧ removedBefore pre c f = false := by
+  obtain ⟨bt, es, h1, h2, h3⟩ := C14_id_belongs as s pre post c ids a h
+  exact ⟨bt, es, h1, h2, fun j hst st n id he hid => h3 j ((hst, st), n) id he hid⟩
+
+/-- ... so, when no two hosts ever issue the same id (every real cluster: ids are digests over host-local state at best;
+    the scripted hosts: by construction), an id that reaches host `hst` in a frame is an id that ONLY `hst` has issued:
+    every PREPARE answer anywhere in the history that carries it was received by `hst`. An execution on a second host
+    with what the Query learnt on the first is therefore not a behaviour of the machine. -/
+theorem C14_no_foreign_host_id {η σ : Type} [DecidableEq η] [DecidableEq σ]
+    (as : List (PConn.Action (η × σ))) (s : PConn.State (η × σ)) (pre post : List (Ev (η × σ))) (c : Nat) (ids : List Id) (a : XAns)
+    (h : PConn.run (PConn.initB b) as = some (s, pre ++ Ev.exec c ids a :: post))
+    (hdis : ∀ f f' h₁ h₂ st₁ st₂ id n₁ n₂, Ev.prep f (h₁, st₁) (some (id, n₁)) ∈ pre → Ev.prep f' (h₂, st₂) (some (id, n₂)) ∈ pre → h₁ = h₂) :
+    ∃ bt es, Ev.start c bt es ∈ pre ∧
+      ∀ (j : Nat) (hst : η) (st : σ) (n : Nat) (id : Id), es[j]? = some ((hst, st), n) → ids[j]? = some id →
+        ∀ f' h' st' n', Ev.prep f' (h', st') (some (id, n')) ∈ pre → h' = hst := by
+  obtain ⟨bt, es, h1, _, h3⟩ := C14_id_belongs_host as s pre post c ids a h
+  refine ⟨bt, es, h1, ?_⟩
+  intro j hst st n id he hid f' h' st' n' hp
+  obtain ⟨f, hf, _⟩ := h3 j hst st n id he hid
+  exact hdis f' f h' hst st' st id n' n hp hf
+
+/-- non-vacuity (hosts 0 and 1, statement 7): the first page of a Query is executed on host 0 (PREPARE there: id [1]), the
+    second on host 1 - accepted when host 1 is sent its own PREPARE and the EXECUTE carries the id host 1 issued ([2]);
+    rejected when the EXECUTE to host 1 carries host 0's id (what a Query that remembers its prepared statement sends),
+    even if host 1 has meanwhile prepared the statement for somebody else -/
+example : (Obs.run (Obs.init : OState (Nat × Nat)) [.start 0 false [((0, 7), 1)], .prep 0 (0, 7) (some ([1], 1)), .exec 0 [[1]] .ok, .ret 0 .ok,
+    .start 1 false [((1, 7), 1)], .prep 1 (1, 7) (some ([2], 1)), .exec 1 [[2]] .ok, .ret 1 .ok]).isSome = true := by decide
+example : (Obs.run (Obs.init : OState (Nat × Nat)) [.start 0 false [((0, 7), 1)], .prep 0 (0, 7) (some ([1], 1)), .exec 0 [[1]] .ok, .ret 0 .ok,
+    .start 1 false [((1, 7), 1)], .exec 1 [[1]] (.unprep [1])]).isNone = true := by decide
+example : (Obs.run (Obs.init : OState (Nat × Nat)) [.start 0 false [((0, 7), 1)], .prep 0 (0, 7) (some ([1], 1)), .start 1 false [((1, 7), 1)],
+    .prep 1 (1, 7) (some ([2], 1)), .exec 0 [[1]] .ok, .ret 0 .ok, .start 2 false [((1, 7), 1)], .exec 2 [[1]] .ok]).isNone = true := by decide
+
 /-- **Single flight on connections.** In every schedule and at every point of it, the number of PREPAREs the
     server has received for a key is at most one more than the number of times an entry of that key left the
     cache (capacity eviction, failed PREPARE, UNPREPARED): with no removal, one PREPARE however many
